@@ -37,7 +37,7 @@ def run(ctx) -> None:
          "pattern": [{Sym("M6"): [{"$deref": {"main_reg": "&genreg.64", "constant_offset": "&val"}}]}, {Sym("M7"): ["&genreg.8L", "&val"]}]}
     compile_sequence_equals_fresh(ctx, "C05.G9.numbering-independent-of-earlier-rules",
                                   [("B after A", [a, b]), ("A after B", [b, a]), ("C after A and B", [a, b, c]),
-                                   ("B twice", [b, b]), ("A after C", [c, a])])
+                                   ("B twice", [b, b]), ("A after C", [c, a])], same_object=True)
     # Z: end to end on stream templates (back-references matched on tokens): later occurrences equal the bound text
     from ..models import make_interp as _mk
     from ..streamshapes import end_to_end
